@@ -28,7 +28,7 @@ PROPS = {
                 streams=[('w1', 'S3', 50, 60), ('w2', 'S3', 20, 60)],
                 configs=['dbg', 'rel'], need=['probe', 'create']),
     'C04': dict(title='Each component value is dropped exactly once; nothing leaks or double-drops',
-                coq=['props/C04.vo'], tags=[4],
+                coq=['props/C04.vo'], side='clone', tags=[4],
                 streams=[('w1', 'S4', 50, 60), ('w2', 'S4', 25, 60)], configs=['dbg', 'rel'], need=['create', 'destroy', 'reg']),
     'C05': dict(title='Queries act on exactly the archetypes whose component set satisfies them',
                 coq=['props/C05.vo'], tags=[5], macro=dict(cases=150, stress=False),
@@ -48,7 +48,7 @@ PROPS = {
                 streams=[('w1', 'S8', 50, 60), ('w2', 'S8', 20, 60), ('w1', 'S6', 20, 50)],
                 configs=['dbg', 'rel'], need=['todirect', 'destroy']),
     'C10': dict(title='A panic escaping any operation leaves the world consistent and memory-safe',
-                coq=['props/C10.vo'], tags=[10, 4],
+                coq=['props/C10.vo'], side='leak', tags=[10, 4],
                 streams=[('w1', 'S9', 40, 60), ('w1', 'S7', 30, 60), ('w2', 'S9', 20, 60)],
                 configs=['dbg', 'rel-plain'], need=['create', 'reg']),
     'C11': dict(title='Runtime-borrowed access panics instead of aliasing, and never refuses wrongly',
@@ -60,7 +60,7 @@ PROPS = {
                 streams=[('w1', 'S10', 50, 60), ('w2', 'S10', 20, 60)], fill=True,
                 configs=['dbg', 'rel'], need=['create', 'createw', 'len']),
     'C13': dict(title='A cloned world is observationally identical and thereafter independent',
-                coq=['props/C13.vo'], tags=[13],
+                coq=['props/C13.vo'], side='clone', tags=[13],
                 streams=[('w1', 'S11', 40, 70), ('w2', 'S11', 20, 70)],
                 configs=['dbg', 'rel'], need=['clone', 'switch']),
     'C14': dict(title='Handle conversions are lossless, type-faithful and consistent with Eq/Hash',
